@@ -17,7 +17,7 @@ LEVEL_TEXT = ('Decided exactly (R01.10): for l = 2..4 (thorough: up to 10) and c
 LEVEL_NOTE = ('Trusted: Cython-subset front-end, interpreter, our transcription of TS72 eq. 82 / KMN15 eqs. 4-14 / S74 eq. 18 (cross-validated by the sibling limits and by C04, whose independently transcribed '
               'starting solutions must be flow-invariant under these matrices). Not decided: convergence of CyRK to tolerance, hence the numerical closed-form equality.')
 EXPLANATION = ('R01.1 coefficient matrices == reference (linearity shown first); R01.2 sibling limits (static = dynamic at omega=0; incompressible = compressible as K -> inf); '
-               'R01.3 dispatch agreement (class, number of solutions, number of ys); R01.5 Love extraction (k, h, l) = (y5 - 1, g y1, g y3) of the surface row; R01.7/R01.8 the interpreted sibling solver and its propagator matrices against the same references; R01.9 every class conserves the bilinear concomitant of two solutions; R01.10 Kelvin closed form from exact solutions; R01.11 on the executed driver the stored Love numbers are find_love_cf of the assembled surface row of their own solution type; R01.12 the assembled solution of every layer lies in the span of the integrated solutions of that layer; R01.13 material wiring: the solver object cf_build_solver builds, with its real update_interp, integrates the reference system with every property interpolated from its own array; R01.14 the driver hands cf_build_solver the slices of its own arrays that belong to the layer; R01.15 the Python entry point hands every argument to the like-named parameter of the compiled driver.')
+               'R01.3 dispatch agreement (class, number of solutions, number of ys); R01.5 Love extraction (k, h, l) = (y5 - 1, g y1, g y3) of the surface row; R01.7/R01.8 the interpreted sibling solver and its propagator matrices against the same references; R01.9 every class conserves the bilinear concomitant of two solutions; R01.10 Kelvin closed form from exact solutions; R01.11 on the executed driver the stored Love numbers are find_love_cf of the assembled surface row of their own solution type; R01.12 the assembled solution of every layer lies in the span of the integrated solutions of that layer; R01.13 material wiring: the solver object cf_build_solver builds, with its real update_interp, integrates the reference system with every property interpolated from its own array; R01.14 the driver hands cf_build_solver the slices of its own arrays that belong to the layer; R01.15 the Python entry point hands every argument to the like-named parameter of the compiled driver; R01.16 the assembled solution the Love numbers are read from meets the requested surface condition (dimensional and non-dimensionalised runs); R01.17 no loop index of the solver is narrower than its bound.')
 
 
 def run(chk):
@@ -132,9 +132,12 @@ def run(chk):
     from . import solver_whole as SW
     SW.guarded(chk, 'C01', lambda: SW.build_arguments(chk, repo, 'R01.14'))
     SW.guarded(chk, 'C01', lambda: SW.entry_point_arguments(chk, repo, 'R01.15'))
+    from .common import index_width_lint
+    index_width_lint(chk, repo, 'R01.17', ['TidalPy/RadialSolver/**/*.pyx', 'TidalPy/utilities/dimensions/*.pyx'])
+    chk.floor('R01.17', 30)
     # ---- R01.11 Love numbers of every requested type are read from the top row of that type's assembled solution (whole-driver symbolic execution)
     from . import solver_whole
-    solver_whole.guarded(chk, 'C01', lambda: solver_whole.assembled(chk, repo, None, None, 'R01.11', rule_span='R01.12'))
+    solver_whole.guarded(chk, 'C01', lambda: solver_whole.assembled(chk, repo, 'R01.16', None, 'R01.11', rule_span='R01.12'))
     if not any(not o.ok for o in chk.obls):
         chk.floor('R01.11', 20); chk.floor('R01.12', 20)
     chk.floor('R01.1', 8 + 36 * 4 + 16 * 2 + 4 * 2); chk.floor('R01.2', 6); chk.floor('R01.3', 17); chk.floor('R01.5', 3)
